@@ -76,6 +76,9 @@ def r_export2(root):
             if isinstance(n, ast.With) and any(isinstance(i.context_expr, ast.Call) and callee_name(i.context_expr) == "suppress" for i in n.items): bad.append(n)
             if isinstance(n, ast.Try):
                 for h in n.handlers:
+                    # handlers for exception classes that no write / flush / close can raise (the iteration protocol, lookups) swallow no I/O error
+                    names_ = [ast.unparse(x_) for x_ in (h.type.elts if isinstance(h.type, ast.Tuple) else [h.type])] if h.type is not None else [None]
+                    if all(nm_ in ("StopIteration", "KeyError", "IndexError", "LookupError", "AttributeError") for nm_ in names_): continue
                     if not any(isinstance(x, ast.Raise) for x in ast.walk(ast.Module(body=h.body, type_ignores=[]))): bad.append(h)
         opens = [c for c in calls(fn) if callee_name(c) == "open"]
         unmanaged = [c for c in opens if not any(isinstance(a_, ast.With) for a_ in ancestors(c))]
